@@ -2,7 +2,7 @@
 program (DESIGN.md 5.6)
 
 storagesim driving the real assemble(): for each sampled (program, width, version, debug file on/off, pre-existing
-output or not) the fault-free call is recorded on the simulated disk, then EVERY file operation of it fails in turn
+output or not, output path plain or a symbolic link) the fault-free call is recorded on the simulated disk, then EVERY file operation of it fails in turn
 (OSError of several errnos, short write + ENOSPC), the process 'dies' after every byte of the .fjm, and an interrupt
 becomes pending at seeded bytecode instructions of the create-binary stage.  The other two clauses of C14 (specific
 exception for every source text, never hangs) quantify over inputs only and are NOT claimed.
@@ -113,7 +113,8 @@ def gen(rng, index, tier):
     stl = PROGRAMS[name][0]
     w = rng.choice([32, 64]) if stl else rng.choice([16, 32, 64])
     return {'program': name, 'failing': False, 'w': w, 'version': rng.choice([0, 1, 2, 3]),
-            'debug': rng.random() < 0.7, 'preexisting': rng.random() < 0.5, 'seed': rng.getrandbits(32)}
+            'debug': rng.random() < 0.7, 'preexisting': rng.random() < 0.5, 'seed': rng.getrandbits(32),
+            'out_symlink': rng.random() < 0.25}
 
 
 OUT = DBG = OUT_DIR = None
@@ -161,7 +162,7 @@ class FaultyStdout:
     def write(self, text):
         n = self.writes
         self.writes += 1
-        if n == self.fail_at:
+        if n >= self.fail_at:        # once the reader of the stream is gone, every later write fails too
             self.fired = True
             raise BrokenPipeError(errno.EPIPE, 'Broken pipe')
         return len(text)
@@ -182,7 +183,18 @@ def call_assemble(case, fault, instr_n=-1, stdout_fail_at=None):
         except OSError:
             pass
     before = None
-    if case['preexisting']:
+    target = OUT_DIR / 'builds' / 'prog-7.fjm'
+    try:
+        os.unlink(target)
+    except OSError:
+        pass
+    if case.get('out_symlink'):
+        # the requested output path is a symbolic link to a regular file (e.g. latest.fjm -> builds/prog-7.fjm)
+        target.parent.mkdir(exist_ok=True)
+        target.write_bytes(old_program_bytes() if case['preexisting'] else b'')
+        os.symlink(target, OUT)
+        before = target.read_bytes() if case['preexisting'] else None
+    elif case['preexisting']:
         before = old_program_bytes()
         Path(OUT).write_bytes(before)
     FS.plan = fault
@@ -231,9 +243,11 @@ def call_assemble(case, fault, instr_n=-1, stdout_fail_at=None):
 
 def judge(case, raised, before):
     """state of the output path after the call"""
-    if not os.path.exists(OUT):
+    if not os.path.exists(OUT):          # (follows a symbolic link: a dangling link is 'absent')
         return 'absent'
     cur = Path(OUT).read_bytes()
+    if not cur:
+        return 'empty'
     if before is not None and cur == before:
         return 'unchanged'
     return 'loadable' if loads(OUT) else 'not-loadable'
